@@ -294,4 +294,21 @@ theorem objF21_not_repObject : ¬ decoded_objects_representable_statement ZC ZC 
   | spinner sp hk hr => exact ⟨hr.samples.file.trimmed, hr.samples.file.noBar⟩
   | hold ho hk hr => exact ⟨hr.samples.file.trimmed, hr.samples.file.noBar⟩
 
+/-! ### the `|` clause of the residual is an artefact of `RepSampleFile`, not a defect -/
+
+/-- a circle whose custom sample file name contains `|`. -/
+def objBarLine : Str := str "256,192,1000,1,0,0:0:0:0:a|b"
+
+/-- the decoded circle violates `FileNameResidual.noBar` (so it is not `RepCircle`), yet the line the encoder writes for it
+is accepted when read back: the clause is needed for slider lines only (kernel evaluation, toy codec). -/
+theorem objBar_accepted_anyway :
+    ((objMapOf objBarLine).hitObjects.map (fun h => fileNameOf h.samples) = [str "a|b"]) ∧
+    (objMapOf objBarLine).hitObjects.all (fun h =>
+      match encodeObject GameMode.mania h with
+      | .ok t => (parseHitObjectLine GameMode.mania ({} : HOCore ZC ZC) (trimEnd t)).2
+      | .error _ => false) = true := by
+  constructor
+  · with_unfolding_all rfl
+  · decide +kernel
+
 end Rosu.C04
